@@ -107,6 +107,22 @@ def run(tier, seed):
     BIG = {"budget_extra": 20000000, "must_complete": True}
     chk.machine_family("more-than-32-facts", fo(SG["manyfacts"] + SG["manyfacts-rest"]), features=features, max_steps=8000,
                        opts_list=[BIG, dict(BIG, md=True)])
+    # the consumer keeps the Atom object it made for the predicate name and goes on using it after clear()
+    # (it is then no longer the engine's own object for that name); another engine's atom of the same name
+    kept = []
+    for mid in ([], [{"op": "clear", "e": 1}], [{"op": "clear", "e": 1}, {"op": "clear", "e": 1}]):
+        steps = [[{"op": "assert", "e": 1, "term": C("p", I(0)), "atEnd": True, "r": 0}]] + [[o] for o in mid]
+        steps += [[{"op": "assert", "e": 1, "term": C("p", I(1)), "atEnd": True, "r": 0}], [{"op": "assert", "e": 1, "term": C("p", I(2)), "atEnd": True, "r": 0}],
+                  [{"op": "query", "e": 1, "r": 1, "goal": C("p", V(0)), "qnv": 1}, {"op": "query", "e": 1, "r": 1, "goal": C("retract", C("p", V(0))), "qnv": 1}],
+                  [{"op": "next", "r": 1}],
+                  [{"op": "assert", "e": 1, "term": C("p", I(3)), "atEnd": True, "r": 0}],
+                  [{"op": "assert", "e": 1, "term": C("p", I(4)), "atEnd": False, "r": 0}],
+                  [{"op": "solve", "e": 1, "r": 2, "goal": C("p", V(0)), "qnv": 1, "k": 0}],
+                  [{"op": "next", "r": 1}], [{"op": "next", "r": 1}], [{"op": "next", "r": 1}],
+                  [{"op": "solve", "e": 1, "r": 3, "goal": C("retract", C("p", V(0))), "qnv": 1, "k": 0}],
+                  [{"op": "solve", "e": 1, "r": 4, "goal": C("p", V(0)), "qnv": 1, "k": 0}]]
+        kept.append({"scripts": {}, "steps": steps, "keys": [{"n": "p", "k": 1}]})
+    chk.machine_family("name-atoms-kept-across-clear", fo(kept), features=features, opts_list=[{}, {"keep_name_atoms": True}, {"keep_name_atoms": True, "md": True}])
     if tier == "thorough":
         chk.machine_family("more-than-1024-facts", fo(SG["manyfacts-big"]), features=features, max_steps=30000,
                            opts_list=[dict(BIG, budget_extra=200000000), dict(BIG, md=True, budget_extra=200000000)], props=("SnapshotsOK", "DbStepShape"))
